@@ -323,6 +323,8 @@ class Oracle:
                         out = None
             return out
         if isinstance(t, T.TypeType):
+            if getattr(t, "is_type_form", False):
+                return None   # TypeForm[...] also admits strings, unions, aliases: not decidable here
             if not isinstance(v, type):
                 return False
             it = T.get_proper_type(t.item)
